@@ -66,6 +66,15 @@ class Machine(base.Machine):
         super().__init__(config, ctx)
         self.allow_lin = False
 
+    def apply(self, op):
+        try:
+            return super().apply(op)
+        except Violation as v:  # shared oracles are reported under this property's name
+            if v.invariant.startswith("C11."):
+                v.invariant = "C17.fresh_equal." + v.invariant[4:]
+                v.args = (v.invariant,)
+            raise
+
     def _gen_gen(self, rng):
         if rng.random() < 0.2:
             op = super()._gen_gen(rng)
@@ -87,7 +96,10 @@ class Machine(base.Machine):
 
     def _gen_fault(self, rng):
         op = super()._gen_fault(rng)
-        if op["fault"] in ("rejected_mode_no",):
+        if op["fault"] in ("rejected_mode_no", "foreign_hankel"):
+            return op
+        if op["fault"] == "errstate_raise":
+            op = {"fault": "foreign_hankel", "kw": {"N": 300}}
             return op
         if op["fault"] in ("callback_raise", "errstate"):
             op = {"fault": "global_rng", "k": rng.randint(0, 2 ** 31), "n": rng.randint(0, 50)}
